@@ -9,8 +9,8 @@
    explored by harness/c12.py, not proved. *)
 From Coq Require Import String List Bool ZArith Arith.
 Import ListNotations.
-Require Import PV.Total.Emit PV.Total.Dispatch PV.Total.Ops PV.Gen.Total.
-Require Import PV.Proofs.TotalEmit PV.Proofs.TotalOps PV.Proofs.TotalGen.
+Require Import PV.Total.Emit PV.Total.Dispatch PV.Total.Ops PV.Total.Column PV.Gen.Total.
+Require Import PV.Proofs.TotalEmit PV.Proofs.TotalOps PV.Proofs.TotalGen PV.Proofs.TotalColumn.
 Open Scope list_scope.
 
 (* 1. show_error: a line number inside the file is rendered without raising, every
@@ -25,13 +25,22 @@ Theorem C12_emit_wellformed : forall (A : Type) (lines : list A) lineno col,
 Proof. exact emit_wellformed. Qed.
 Print Assumptions C12_emit_wellformed.
 
-(* 2. exactly when it raises: the line number is not a valid subscript for both
-      lines[lineno-1] and lines[lineno-2] *)
+(* 2. exactly when it raises: the line number is not a valid subscript for
+      lines[lineno-1] (lines[lineno-2] is only evaluated for lineno >= 2, where it is
+      then valid as well) *)
 Theorem C12_emit_crash_iff : forall (A : Type) (lines : list A) lineno col,
   emit lines (Some lineno) col = Crash <->
-  ~ (2 - Z.of_nat (length lines) <= lineno <= Z.of_nat (length lines))%Z.
+  ~ (1 - Z.of_nat (length lines) <= lineno <= Z.of_nat (length lines))%Z.
 Proof. exact emit_crash_iff. Qed.
 Print Assumptions C12_emit_crash_iff.
+
+(* the subscripts of `lines` in the CURRENT show_error, their guards, the bounds of the
+   context loop and CONTEXT_LINES are the ones the model was written for *)
+Theorem C12_show_error_shape_pinned :
+  show_error_subscripts = pinned_subscripts /\ show_error_context_bounds = pinned_context_bounds /\
+  Z.of_nat show_error_context_lines = CONTEXT_LINES.
+Proof. exact show_error_shape_pinned. Qed.
+Print Assumptions C12_show_error_shape_pinned.
 
 Theorem C12_emit_without_position_total : forall (A : Type) (lines : list A) col,
   emit lines None col = Emitted None col [].
@@ -43,6 +52,28 @@ Definition C12_emit_full_statement : Prop := emit_full_statement.
 Theorem C12_emit_full_statement_refuted : ~ C12_emit_full_statement.
 Proof. exact emit_full_statement_refuted. Qed.
 Print Assumptions C12_emit_full_statement_refuted.
+
+(* 2b. the column: `ast` reports the UTF-8 byte offset.  For a line of ASCII characters it is
+       the character position, hence inside the line; in general it is never left of the
+       character and exceeds it by exactly the extra bytes of the wide characters before the
+       node -- so it can leave the line (known finding C12-column-byte-offset, guard
+       `all_ascii line = false`) *)
+Definition C12_col_in_line_full_statement : Prop := col_in_line_full_statement.
+Theorem C12_col_in_line_refuted : ~ C12_col_in_line_full_statement.
+Proof. exact col_in_line_refuted. Qed.
+Print Assumptions C12_col_in_line_refuted.
+
+Theorem C12_col_in_line_partial : forall ws k, all_ascii ws = true -> (k <= length ws)%nat -> col_in_line ws k = true.
+Proof. exact col_in_line_ascii. Qed.
+Print Assumptions C12_col_in_line_partial.
+
+Theorem C12_col_is_position_plus_extra_bytes : forall ws k, wellformed_widths ws = true -> (k <= length ws)%nat ->
+  (k <= reported_col ws k)%nat /\
+  reported_col ws k = (k + fold_right (fun w acc => (w - 1) + acc) 0 (firstn k ws))%nat.
+Proof.
+  intros ws k Hw Hk. split; [apply col_not_left_of_character; assumption|apply byte_offset_firstn; assumption].
+Qed.
+Print Assumptions C12_col_is_position_plus_extra_bytes.
 
 (* 3. Python subscripting *)
 Theorem C12_py_index_defined_iff : forall (A : Type) (l : list A) i,
@@ -76,7 +107,7 @@ Proof. split; [exact boolab_guard_exact|exact boolability_repaired_classes]. Qed
 Print Assumptions C12_boolability_guard_exact_and_repairs.
 
 (* 6. the annotation visitor of the CURRENT annotations.py raises for no expression kind;
-      a raising generic_visit crashes on exactly the kinds without a method (Starred has none) *)
+      a raising generic_visit crashes on exactly the kinds without a method *)
 Theorem C12_annotation_visitor_total : forall k, In k expr_kinds -> annotation_crashes k = false.
 Proof. exact annotation_visitor_total. Qed.
 Print Assumptions C12_annotation_visitor_total.
@@ -85,6 +116,29 @@ Theorem C12_raising_generic_visit_crashes : forall methods k,
   visitor_crashes methods k = true <-> ~ In k methods.
 Proof. exact raising_generic_visit_crashes. Qed.
 Print Assumptions C12_raising_generic_visit_crashes.
+
+(* 6b. every if/elif chain of the package that compares one subject with the members of one
+       enum and ends in `assert False` / raise (ParameterKind in bind_arguments, can_assign,
+       to_argument; ConstraintType in apply_to_value) handles EVERY member of the enum as
+       regenerated from the source, except the one named nested chain; typevar.solve handles
+       every Bound class of value.py *)
+Theorem C12_enum_chains_total_partial : forall ch, In ch enum_chains -> chain_guard ch = false -> chain_total ch = true.
+Proof. exact enum_chains_total_partial. Qed.
+Print Assumptions C12_enum_chains_total_partial.
+
+Theorem C12_total_chain_covers_every_member : forall f fn subj e handled m,
+  chain_total (f, fn, subj, e, handled) = true -> In m (members_of e) -> In m handled.
+Proof. exact chain_total_covers. Qed.
+Print Assumptions C12_total_chain_covers_every_member.
+
+Theorem C12_enum_chains_guard_exact : forallb (fun ch => negb (chain_guard ch) || negb (chain_total ch)) enum_chains = true
+  /\ (4 <= length (filter (fun ch => negb (chain_guard ch)) enum_chains))%nat.
+Proof. exact enum_chains_guard_exact. Qed.
+Print Assumptions C12_enum_chains_guard_exact.
+
+Theorem C12_bound_chain_total : forall c, In c bound_family -> crashes [] bound_chain_handled c = false.
+Proof. exact bound_chain_total. Qed.
+Print Assumptions C12_bound_chain_total.
 
 (* 7. constraints: however And/Or constraints are built (make, invert), apply never
       meets `left, *rest = []` *)
